@@ -249,3 +249,64 @@ Example ex_consumer_sizes :
   reader_rd [[123; 34; 97]; [98; 34; 125; 47; 47; 120]] 0 false [0; 1; 1; 0; 2; 1; 5; 5] = ([123; 34; 97; 98; 34; 125], Some (Ok tt))
   /\ reader_rd [[123; 34; 97]; [98; 34; 125; 47; 47; 120]] 0 false [0; 1; 1; 0; 2] = ([123; 34; 97; 98], None).
 Proof. vm_compute. auto. Qed.
+
+(* ---- the generic machinery instantiated with the JSON+ tables is the proven one ---- *)
+Lemma split_t_json d e : split_t json_tables d e = split d e.
+Proof. reflexivity. Qed.
+
+Lemma scan_tok_g_ext f g : (forall d e, f d e = g d e) -> forall fin dt fuel st segs serr,
+  scan_tok_g f fuel st segs fin dt serr = scan_tok_g g fuel st segs fin dt serr.
+Proof.
+  intros H fin dt. induction fuel as [|n IH]; intros st segs serr; [reflexivity|].
+  cbn [scan_tok_g]. rewrite H.
+  match goal with |- context [if ?c then g ?a ?b else Ok More] => destruct (if c then g a b else Ok More) as [[|adv tok]|e|s] end;
+    try reflexivity.
+  - destruct serr as [e|]; [reflexivity|].
+    match goal with |- context [if ?c then (SEnd (Err E_TOOLONG), n) else _] => destruct c end; [reflexivity|].
+    match goal with |- context [read_more ?a ?b ?c ?d ?e] => destruct (read_more a b c d e) as [[got sg] se] end.
+    apply IH.
+  - match goal with |- context [if ?c then (SEnd (Err (set_err serr E_ADVANCE)), n) else _] => destruct c end; [reflexivity|].
+    destruct (adv =? 0)%Z; [reflexivity|]. destruct tok; [apply IH|reflexivity].
+Qed.
+
+Lemma scan_tok_g_split fin dt : forall fuel st segs serr,
+  scan_tok_g split fuel st segs fin dt serr = scan_tok fuel st segs fin dt serr.
+Proof.
+  induction fuel as [|n IH]; intros st segs serr; [reflexivity|].
+  cbn [scan_tok_g scan_tok].
+  match goal with |- context [if ?c then split ?a ?b else Ok More] => destruct (if c then split a b else Ok More) as [[|adv tok]|e|s] end;
+    try reflexivity.
+  - destruct serr as [e|]; [reflexivity|].
+    match goal with |- context [if ?c then (SEnd (Err E_TOOLONG), n) else _] => destruct c end; [reflexivity|].
+    match goal with |- context [read_more ?a ?b ?c ?d ?e] => destruct (read_more a b c d e) as [[got sg] se] end.
+    apply IH.
+  - match goal with |- context [if ?c then (SEnd (Err (set_err serr E_ADVANCE)), n) else _] => destruct c end; [reflexivity|].
+    destruct (adv =? 0)%Z; [reflexivity|]. destruct tok; [apply IH|reflexivity].
+Qed.
+
+Lemma consume_g_split fin dt : forall rds s acc, consume_g split fin dt rds s acc = consume fin dt rds s acc.
+Proof.
+  induction rds as [|n t IH]; intros s acc; [reflexivity|].
+  cbn [consume_g consume]. unfold read_p_g, read_p. rewrite scan_tok_g_split.
+  destruct (rb s).
+  - destruct (scan_tok (rfuel s) (rst s) (rsegs s) fin dt (rserr s)) as [[tok st' sg se|r] f'].
+    + destruct (match se with Some e => negb (e =? 0) | None => false end); [reflexivity|].
+      destruct (deliver n tok). apply IH.
+    + reflexivity.
+  - destruct (deliver n (n0 :: b)). apply IH.
+Qed.
+
+Lemma generic_is_json segs fin dt rds : reader_rd_t json_tables segs fin dt rds = reader_rd segs fin dt rds.
+Proof.
+  unfold reader_rd_t, reader_rd.
+  assert (E : forall rds s acc, consume_g (split_t json_tables) fin dt rds s acc = consume_g split fin dt rds s acc).
+  { induction rds0 as [|n t IH]; intros s acc; [reflexivity|]. cbn [consume_g]. unfold read_p_g.
+    rewrite (scan_tok_g_ext (split_t json_tables) split split_t_json).
+    destruct (rb s).
+    - destruct (scan_tok_g split (rfuel s) (rst s) (rsegs s) fin dt (rserr s)) as [[tok st' sg se|r] f'].
+      + destruct (match se with Some e => negb (e =? 0) | None => false end); [reflexivity|].
+        destruct (deliver n tok). apply IH.
+      + reflexivity.
+    - destruct (deliver n (n0 :: b)). apply IH. }
+  now rewrite E, consume_g_split.
+Qed.
